@@ -250,6 +250,9 @@ func (p *ProdGen) Replacement(cls string) sdk.Msg {
 			return &ct.MsgReplaceMessage{From: from, OriginalMessage: raw, OriginalAttestation: e.Attest(raw, 0), NewMessageBody: newBody, NewDestinationCaller: newCaller}
 		}
 		dst := p.dstWithMessenger()
+		if len(e.M.Messengers[dst]) != 32 {
+			return nil
+		}
 		body := BurnBody(0, ref.Keccak256([]byte(strings.ToLower(e.MintDenom()))), Structured32(5), big.NewInt(int64(1+r.Intn(1000))), ref.Pad32(addrBytes(from)))
 		in := &InMsg{Version: ver, Src: 4, Dst: dst, Nonce: uint64(r.Intn(50)), Sender: modulePadded, Recipient: e.M.Messengers[dst], Caller: make([]byte, 32), Body: body}
 		raw := in.Bytes()
